@@ -76,6 +76,8 @@ def cases(draw):
         # invalid_disparity may be configured): it must never enter a median or a weighted mean
         "invalid_value": draw(st.sampled_from(["NaN", -9999, -9999, 0, 3.5, -2.25])),
         "float64": draw(st.integers(0, 5)) == 0,
+        # memory layout of the map the caller hands over: row-major, column-major, or a transposed view
+        "layout": draw(st.sampled_from(["C", "C", "F", "T"])),
         "flagseed": draw(st.integers(0, 1000)),
     }
     if method == "bilateral":
@@ -158,6 +160,10 @@ def body(ctx: Ctx, p: dict) -> None:
     if p.get("float64"):
         # a map the caller built or loaded in double precision
         ds["disparity_map"] = ds["disparity_map"].astype(np.float64)
+    if p.get("layout", "C") == "F":
+        ds["disparity_map"].data = np.asfortranarray(ds["disparity_map"].data)
+    elif p.get("layout") == "T":
+        ds["disparity_map"].data = np.ascontiguousarray(ds["disparity_map"].data.T).T
     before = build.snapshot(ds)
     flt = pfilter.AbstractFilter(cfg=dict(cfg), image_shape=(ny, nx), step=1)
     flt.filter_disparity(ds)
@@ -306,6 +312,8 @@ def body(ctx: Ctx, p: dict) -> None:
         classes.append("crosses-block-boundary")
     if method == "bilateral" and min(ny, nx, int(3 * float(p["sigma_space"]) + 1)) % 2 == 0:
         classes.append("even-bilateral-window")
+    if p.get("layout", "C") != "C":
+        classes.append("map-not-row-major")
     ctx.case(p, nontrivial=bool(has_inv_in_window and changed), classes=classes)
 
 
